@@ -26,7 +26,7 @@ INV = ["C01_Descending", "C01_VarianceIdentity", "C01_EckartYoung", "C15_Thresho
 def cfg(tier):
     q = tier != "thorough"
     return ["SPECIFICATION Spec", "CONSTANTS",
-            f" Ns <- {'NsQ' if q else 'NsT'}", f" Spectra <- {'SpectraQ' if q else 'SpectraT'}",
+            f" Ns <- {'NsTall' if q else 'NsTT'}", f" Spectra <- {'SpectraQ' if q else 'SpectraT'}",
             f" WPatterns <- {'WQ' if q else 'WAll'}", f" LPatterns <- {'LQ' if q else 'LAll'}",
             " Fracs <- NoFrac", " Irrs <- IrrOne", " Kinds <- KBoth", " Rels <- RelNone",
             " Dtypes <- DBoth", " Solvers <- SAll", " Cexps <- CAll", f" FullProduct = {'FALSE' if q else 'TRUE'}",
